@@ -288,12 +288,117 @@ func (e *engine) evalRace(c Case) error {
 	return nil
 }
 
+// ---------- flood engine: a busy server ----------
+
+// evalFlood: one request r is accepted; c.N other genuine requests (distinct salts, real handshakes through
+// HandleStream) are accepted while r's timestamp stays valid (the fake clock advances c.Skew ns in total);
+// r is presented again.
+func (e *engine) evalFlood(c Case) error {
+	rep := e.rep
+	k, err := newKeys(c.Cfg)
+	if err != nil {
+		return err
+	}
+	var first, again string
+	var t1, t2 int64
+	var ts uint64
+	refused := 0
+	var runErr error
+	synctest.Test(e.t, func(t *testing.T) {
+		srv, err := k.newServer()
+		if err != nil {
+			runErr = err
+			return
+		}
+		time.Sleep(time.Duration(c.Cfg.KeySeed % 1e9))
+		ts = uint64(time.Now().Unix())
+		req, err := k.build("genuine", saltBytes(1, c.Cfg.KeyLen), ts, 5)
+		if err != nil {
+			runErr = err
+			return
+		}
+		t1 = time.Now().UnixNano()
+		first, _ = presentBytes(srv, req.Bytes)
+		step := time.Duration(0)
+		if c.N > 0 {
+			step = time.Duration(c.Skew / int64(c.N))
+		}
+		for i := 0; i < c.N; i++ {
+			if step > 0 {
+				time.Sleep(step)
+			}
+			b, err := k.build("genuine", saltBytes(uint64(10+i), c.Cfg.KeyLen), uint64(time.Now().Unix()), 1)
+			if err != nil {
+				runErr = err
+				return
+			}
+			if v, _ := presentBytes(srv, b.Bytes); v != "accept" {
+				refused++
+			}
+		}
+		t2 = time.Now().UnixNano()
+		again, _ = presentBytes(srv, req.Bytes)
+	})
+	if runErr != nil {
+		return runErr
+	}
+	rep.Case(sigOf(c), true)
+	rep.Count(fmt.Sprintf("flood:n=%d", c.N))
+	obs := map[string]any{"first": first, "others_refused": refused, "again": again, "t1": t1, "t2": t2}
+	rep.Sample(map[string]any{"case": c, "observed": obs})
+	if first != "accept" || refused > 0 {
+		rep.Fail(common.OracleFailure{Engine: "flood", Key: "genuine-refused:busy-server", Case: c, Detail: fmt.Sprintf("first=%s, %d of %d fresh valid requests refused", first, refused, c.N)})
+	}
+	if again == "accept" && tsPasses(ts, t2) {
+		rep.Fail(common.OracleFailure{Engine: "flood", Key: "double-accept:after-many-salts", Case: c,
+			Detail: fmt.Sprintf("request (timestamp %d) accepted at %d ns and again at %d ns (%.9f s later, timestamp still passes) after %d other accepted handshakes", int64(ts), t1, t2, float64(t2-t1)/1e9, c.N-refused)})
+	}
+	// model (theorem no_double_accept): the second presentation is refused as a repeated salt
+	if first != "accept" || refused > 0 || (tsPasses(ts, t2) && again != "repeated") {
+		rep.Diverge(common.Divergence{Engine: "flood", Case: c, Impl: obs, Model: "accept, all others accept, then repeated"})
+	}
+	rep.TracesValidated++
+	return nil
+}
+
 // ---------- pool engine ----------
 
 type PoolOp struct {
-	Op   string `json:"op"` // add | contains | try | clear
+	Op   string `json:"op"` // add | fill | contains | try | clear
 	Now  int64  `json:"now,omitempty"`
-	Salt int    `json:"salt,omitempty"`
+	Salt int    `json:"salt,omitempty"` // fill: first salt id
+	N    int    `json:"n,omitempty"`    // fill: number of distinct consecutive salts added
+	Step int64  `json:"step,omitempty"` // fill: clock advance between two of them, ns
+}
+
+// floodSizes: how many other salts are accepted between the two presentations of one salt
+// ("whatever other traffic arrives in between" includes a lot of traffic: any capacity / eviction policy of
+// the pool other than expiry shows at some size).
+var floodSizes = []int{1 << 10, 1<<16 - 1, 1 << 16, 1<<16 + 1, 1 << 17, 300000}
+
+// genPoolFloodCase: Add(r) at t1; N distinct fresh salts at instants in [t1, t2]; Add(r) again at t2, an instant
+// at which a timestamp accepted at t1 can still pass (floor(t2) - floor(t1) <= 60 s).
+func genPoolFloodCase(r *common.Rng, n int) Case {
+	c := Case{Engine: "pool"}
+	t1 := bubbleStart + int64(r.Intn(1000000000))
+	if r.Chance(1, 2) {
+		t1 = bubbleStart + common.Pick(r, []int64{0, 1, 999999999})
+	}
+	span := common.Pick(r, []int64{0, 1, 1000000000, 30000000000, (t1/1e9+61)*1e9 - 1 - t1, int64(r.U64() % 60000000000)})
+	t2 := t1 + span
+	step := int64(0)
+	if n > 0 {
+		step = span / int64(n+1)
+	}
+	c.PoolOps = []PoolOp{
+		{Op: "add", Now: t1, Salt: 1},
+		{Op: "fill", Now: t1 + step, Salt: 1000, N: n, Step: step},
+		{Op: "contains", Salt: 1},
+		{Op: "add", Now: t2, Salt: 1},
+		{Op: "add", Now: t2, Salt: 1000},
+		{Op: "add", Now: t2, Salt: 1000 + n - 1},
+	}
+	return c
 }
 
 func genPoolCase(r *common.Rng, w int64) Case {
@@ -338,39 +443,121 @@ func b2s(b bool) string {
 	return "0"
 }
 
+func saltOfID(id int) (s [32]byte) {
+	binary.BigEndian.PutUint64(s[:], uint64(id))
+	return
+}
+
+// poolOracle: the statement at the level of the pool. A request accepted at t1 (Add = true) whose timestamp still
+// passes at t2 exists whenever floor(t2) - floor(t1) <= 60 s, and the pool is all the server remembers: the second
+// Add of that salt must answer false, whatever was added in between. Applied when every instant handed to Add in
+// between lies in [t1, t2] (monotone clock as far as this salt is concerned) and the pool was not cleared.
+type poolOracle struct {
+	last     map[int]poolAccept
+	idx      int   // number of Adds so far
+	prevNow  int64 // instant of the previous Add
+	lastDrop int   // index of the last Add whose instant was earlier than its predecessor's
+}
+
+type poolAccept struct {
+	t1  int64
+	idx int
+}
+
+func (o *poolOracle) add(salt int, now int64, res bool) (key, detail string) {
+	o.idx++
+	if o.idx > 1 && now < o.prevNow {
+		o.lastDrop = o.idx
+	}
+	o.prevNow = now
+	// instants non-decreasing from the accepting Add up to this one => all of them lie in [t1, now]
+	if a, ok := o.last[salt]; ok && res && o.lastDrop <= a.idx && now/1e9-a.t1/1e9 <= 60 {
+		between := o.idx - a.idx - 1
+		switch {
+		case between >= 1000:
+			key = "double-accept:after-many-salts"
+		case now-a.t1 >= 60e9:
+			key = f2Key
+		default:
+			key = "double-accept:pool"
+		}
+		detail = fmt.Sprintf("salt %d: Add = true at %d ns and again at %d ns (%.9f s later, a timestamp accepted at the first instant can still pass), after %d Adds of other salts in between", salt, a.t1, now, float64(now-a.t1)/1e9, between)
+	}
+	if res {
+		o.last[salt] = poolAccept{t1: now, idx: o.idx}
+	}
+	return
+}
+
 func (e *engine) evalPool(c Case) error {
 	var pool ss2022.SaltPool
 	var impl, lines []string
 	lines = append(lines, "reset 0")
 	impl = append(impl, "ok")
+	orc := &poolOracle{last: map[int]poolAccept{}}
+	adds := 0
+	for _, op := range c.PoolOps {
+		if op.Op == "fill" {
+			adds += op.N
+		}
+	}
+	withModel := e.drv != nil && adds <= 2048 // the model's list pool is quadratic; larger floods are oracle-only
+	var failed bool
+	fail := func(k, d string) {
+		if k != "" && !failed {
+			failed = true
+			e.rep.Fail(common.OracleFailure{Engine: "pool", Key: k, Case: c, Detail: d})
+		}
+	}
 	pan := common.Safely(func() {
 		for _, op := range c.PoolOps {
-			var s [32]byte
-			binary.BigEndian.PutUint64(s[:], uint64(op.Salt))
 			switch op.Op {
 			case "add":
-				impl = append(impl, b2s(pool.Add(time.Unix(0, op.Now), s)))
+				res := pool.Add(time.Unix(0, op.Now), saltOfID(op.Salt))
+				impl = append(impl, b2s(res))
 				lines = append(lines, fmt.Sprintf("padd %d %d", op.Now, op.Salt))
+				fail(orc.add(op.Salt, op.Now, res))
+			case "fill":
+				okc := 0
+				for i := 0; i < op.N; i++ {
+					now := op.Now + int64(i)*op.Step
+					res := pool.Add(time.Unix(0, now), saltOfID(op.Salt+i))
+					if res {
+						okc++
+					}
+					if withModel {
+						impl = append(impl, b2s(res))
+						lines = append(lines, fmt.Sprintf("padd %d %d", now, op.Salt+i))
+					}
+					fail(orc.add(op.Salt+i, now, res))
+				}
+				if !withModel {
+					impl = append(impl, fmt.Sprintf("filled=%d", okc))
+				}
 			case "contains":
-				impl = append(impl, b2s(pool.Contains(s)))
+				impl = append(impl, b2s(pool.Contains(saltOfID(op.Salt))))
 				lines = append(lines, fmt.Sprintf("pcontains %d", op.Salt))
 			case "try":
-				impl = append(impl, b2s(pool.TryContains(s)))
+				impl = append(impl, b2s(pool.TryContains(saltOfID(op.Salt))))
 				lines = append(lines, fmt.Sprintf("ptry %d 0", op.Salt))
 			case "clear":
 				pool.Clear()
 				impl = append(impl, "ok")
 				lines = append(lines, "pclear")
+				orc.last = map[int]poolAccept{}
 			}
 		}
 	})
 	e.rep.Case(sigOf(c), strings.Contains(strings.Join(impl, ""), "0") && strings.Contains(strings.Join(impl, ""), "1"))
 	e.rep.Count("pool:cases")
+	if adds > 0 {
+		e.rep.Count(fmt.Sprintf("pool:flood=%d", adds))
+	}
 	if pan != nil {
 		e.rep.Fail(common.OracleFailure{Engine: "pool", Key: "panic:saltpool", Case: c, Detail: fmt.Sprint(pan)})
 		return nil
 	}
-	if e.drv != nil {
+	if withModel {
 		out, err := e.model(lines)
 		if err != nil {
 			return err
@@ -379,6 +566,14 @@ func (e *engine) evalPool(c Case) error {
 			e.rep.Diverge(common.Divergence{Engine: "pool", Case: c, Impl: strings.Join(impl, ""), Model: strings.Join(out, "")})
 		}
 		e.rep.TracesValidated++
+	} else if adds > 0 {
+		// model side of a large flood, by theorem (no_double_accept / live_run: nothing but expiry removes a salt):
+		// Contains(1) = true, the second Add(1) = false, the re-Adds of the first and last flood salt = false
+		want := []string{"1", "0", "0", "0"}
+		got := impl[len(impl)-4:]
+		if strings.Join(got, "") != strings.Join(want, "") {
+			e.rep.Diverge(common.Divergence{Engine: "pool", Case: c, Impl: strings.Join(impl, ","), Model: "…,1,0,0,0 (a salt is removed by expiry only)"})
+		}
 	}
 	return nil
 }
@@ -477,6 +672,8 @@ func (e *engine) eval(c Case) error {
 		return e.evalRace(c)
 	case "pool":
 		return e.evalPool(c)
+	case "flood":
+		return e.evalFlood(c)
 	case "ts":
 		return e.evalTs(c)
 	}
@@ -539,6 +736,26 @@ func (e *engine) all() error {
 	}
 	if o.Thorough() {
 		e.raceDetectorRun()
+	}
+	{
+		fc := Case{Engine: "flood", Cfg: Cfg{KeySeed: r.U64(), KeyLen: 16}, N: 2048, Skew: int64(r.Intn(30)) * 1e9}
+		if o.Thorough() || o.Search {
+			fc.N = 70000
+		}
+		if err := e.eval(fc); err != nil {
+			return err
+		}
+	}
+	for i, fs := range floodSizes {
+		reps := 1
+		if o.Thorough() || o.Search {
+			reps = 4
+		}
+		for j := 0; j < reps; j++ {
+			if err := e.eval(genPoolFloodCase(r.Fork(uint64(6<<32+i*16+j)), fs)); err != nil {
+				return err
+			}
+		}
 	}
 	n = o.Budget(2000, 50000)
 	for i := 0; i < n; i++ {
@@ -616,11 +833,11 @@ func main() {
 	testing.Init()
 	o := common.ParseFlags()
 	rep := common.NewReport("C03", o)
-	rep.Engines = []string{"replay", "race", "pool", "ts"}
+	rep.Engines = []string{"replay", "race", "pool", "ts", "flood"}
 	rep.Rule = "replay: histories (<= ~45 ops) of clock advances and presentations of crafted/real/mutated SS2022 TCP requests to a real StreamServer on a synctest fake clock; " +
 		"templates: end-of-validity replays (skew -31..+31 s, instants within 0/1/2 ns and 1 s of the last valid instant), retention edges (t1 + 59/60/61/62 s +-2 ns after a pruning Add), forged-copies-first, random walks over a boundary step alphabet; " +
 		"non-trivial = at least one accept and at least one re-presentation of an accepted request; distinct by (config, op list). " +
-		"race: k in {2,3,4,8,16} concurrent copies + 0..6 unrelated concurrent requests. pool: <= 40 SaltPool ops with non-monotone instants. ts: 64 (word, clock) pairs per case over 64-bit boundary alphabets"
+		"race: k in {2,3,4,8,16} concurrent copies + 0..6 unrelated concurrent requests. pool: <= 40 SaltPool ops with non-monotone instants, plus floods: Add(r), N distinct fresh salts (N in 2^10, 2^16-1, 2^16, 2^16+1, 2^17, 3*10^5) inside r's validity span, Add(r) again (model compared up to 2048 Adds, larger floods oracle + theorem). flood: the same through HandleStream with 2048 (quick) / 70000 (thorough, search) real handshakes on the fake clock. ts: 64 (word, clock) pairs per case over 64-bit boundary alphabets"
 	code := 0
 	testing.Main(func(pat, str string) (bool, error) { return true, nil }, []testing.InternalTest{{Name: "corr_c03", F: func(t *testing.T) {
 		e := &engine{o: o, rep: rep, t: t}
